@@ -128,8 +128,10 @@ class ComparamInstance:
             )
             return None
 
-        result = value_list[idx]
-        if result is None and isinstance(subparam, (Comparam, ComplexComparam)):
+        # the value of the sub-parameter may be omitted or empty. In
+        # this case, the default value of the sub-parameter applies
+        result = value_list[idx] if idx < len(value_list) else None
+        if not result and isinstance(subparam, (Comparam, ComplexComparam)):
             result = subparam.physical_default_value
         if not isinstance(result, str):
             odxraise()
